@@ -48,6 +48,34 @@ func encCertSelector(p *Prog) (sel *ssa.Function, inline bool) {
 		}
 		return fn, false
 	}
+	// the same selector as a plain function of the request, or handing back (certificate, err) as one result struct
+	for _, fn := range p.modFns {
+		if !p.InLibrary(fn) || fn.Pkg == nil || fn.Pkg.Pkg.Path() != modPath || len(fn.Blocks) == 0 {
+			continue
+		}
+		takesReq := false
+		for _, prm := range fn.Params {
+			if typeIs(prm.Type(), modPath, "IdpAuthnRequest") {
+				takesReq = true
+			}
+		}
+		if !takesReq {
+			continue
+		}
+		res := fn.Signature.Results()
+		if res.Len() == 2 && errIndex(fn) == 1 && typeIs(res.At(0).Type(), "crypto/x509", "Certificate") {
+			return fn, false
+		}
+		if _, hasErr := errComponent(fn); hasErr && res.Len() == 1 {
+			if st := unexportedStruct(res.At(0).Type()); st != nil {
+				for k := 0; k < st.NumFields(); k++ {
+					if typeIs(st.Field(k).Type(), "crypto/x509", "Certificate") {
+						return fn, false
+					}
+				}
+			}
+		}
+	}
 	mk := p.MustFunc("saml", "IdpAuthnRequest", "MakeAssertionEl")
 	if len(methodCallsOn(mk, "crypto/x509.ParseCertificate")) > 0 {
 		return mk, true
@@ -132,6 +160,9 @@ func checkDowngrade(r *Report, p *Prog) {
 		certCalls = append(certCalls, methodCallsOn(mk, "(*encoding/base64.Encoding).DecodeString")...)
 	} else {
 		errAP = fc.AP(selCall) + "#1"
+		if ei, ok := errComponent(sel); ok && ei < 0 {
+			errAP = fc.AP(selCall) + "." + fieldName(selCall.Type(), -ei-1)
+		}
 		nilA = "isnil(" + errAP + ")"
 		for name, ai := range a.Atoms {
 			if ai.Kind == "eq" && strings.Contains(name, errAP) && strings.Contains(name, "os.ErrNotExist") {
@@ -222,7 +253,15 @@ func checkDowngrade(r *Report, p *Prog) {
 		if inlineSel {
 			break
 		}
-		ev := Resolve(ret.Results[1])
+		var ev ssa.Value
+		if ei, okE := errComponent(sel); okE {
+			if rc := retComponent(ret, ei); rc != nil {
+				ev = Resolve(rc)
+			}
+		}
+		if ev == nil {
+			continue
+		}
 		ld, ok := ev.(*ssa.UnOp)
 		if !ok {
 			continue
@@ -294,7 +333,7 @@ func checkDowngrade(r *Report, p *Prog) {
 			for _, in := range b.Instrs {
 				switch x := in.(type) {
 				case *ssa.Phi:
-					if x.Type().String() != "string" {
+					if !isStringType(x.Type()) {
 						continue
 					}
 					for i, e := range x.Edges {
@@ -354,7 +393,7 @@ func checkDowngrade(r *Report, p *Prog) {
 	for _, b := range sel.Blocks {
 		for _, in := range b.Instrs {
 			ph, ok := in.(*ssa.Phi)
-			if !ok || ph.Type().String() != "string" {
+			if !ok || !isStringType(ph.Type()) {
 				continue
 			}
 			for i, e := range ph.Edges {
